@@ -19,7 +19,7 @@ from vpkit.children.c18_harvest import NAMES
 
 ID = "C18"
 N = {"quick": 112, "thorough": 2800}
-BUDGET = {"quick": 240.0, "thorough": 1800.0}
+BUDGET = {"quick": 240.0, "thorough": 700.0}
 RULE = ("case = a block of events for one of the 14 moment functions: harvested (args of real EP runs "
         "incl. historical / internal samples and unphased blocks below fixed parents), random inside "
         "the harvested per-argument ranges, and random in ranges widened x10 (support/finiteness "
